@@ -32,4 +32,15 @@ Spec == Init /\ [][Next]_on
 NoDangling == \A e \in Edges : Holds(Guard[e[1]], on) => Holds(Guard[e[2]], on)
 \* a derive is exposed exactly with its feature
 Exposure == \A d \in DOMAIN DeriveFeature : Holds(Guard[d], on) <=> DeriveFeature[d] \in on
+
+\* The helper types of the facade and the features that own each of them: the documented contract ("exposes exactly the
+\* derives and helper types of the enabled features"), fixed here and NOT extracted from the tree.
+HelperOwner == [BinaryError |-> {"add", "mul"}, WrongVariantError |-> {"add", "mul"}, UnitError |-> {"add", "mul", "not"},
+                FromStrError |-> {"from_str"}, TryFromReprError |-> {"try_from"}, TryIntoError |-> {"try_into"},
+                TryUnwrapError |-> {"try_unwrap"}]
+DocHelpers(fs) == {h \in DOMAIN HelperOwner : HelperOwner[h] \cap fs # {}}
+\* where the extracted facade names a helper in a guarded `pub use`, the guard is the owner table's (state-wise);
+\* what the built crate REALLY exports - globs included - is observed by the exposure probes and compared with DocHelpers
+HelperExposure == \A h \in DOMAIN HelperOwner :
+    ("facade:" \o h) \in DOMAIN Guard => (Holds(Guard["facade:" \o h], on) <=> HelperOwner[h] \cap on # {})
 =============================================================================
